@@ -341,3 +341,10 @@ def _table_tx(body, write_call, begin_call):
 # sensitivity pack (thorough tier): each seeded edit must be reported by the named rule instance
 MUTANTS = [{'name': 'seeded-C13-a', 'patch': 'C13-a/patch.diff', 'expect': ('R13.5', 'update_savepoints', 'LastSavepointHeight')},
            {'name': 'seeded-C13-b', 'patch': 'C13-b/patch.diff', 'expect': ('R13.6', 'Updater::commit', 'precede wtx.commit')}]
+
+
+# behaviour-preserving pack (thorough tier)
+NEUTRAL = [
+  {'name': 'commit: two independent statistic flushes reordered', 'file': 'src/index/updater.rs', 'old': '    Index::increment_statistic(&wtx, Statistic::OutputsTraversed, self.outputs_traversed)?;\n    self.outputs_traversed = 0;\n    Index::increment_statistic(&wtx, Statistic::SatRanges, self.sat_ranges_since_flush)?;\n    self.sat_ranges_since_flush = 0;\n', 'new': '    Index::increment_statistic(&wtx, Statistic::SatRanges, self.sat_ranges_since_flush)?;\n    self.sat_ranges_since_flush = 0;\n    Index::increment_statistic(&wtx, Statistic::OutputsTraversed, self.outputs_traversed)?;\n    self.outputs_traversed = 0;\n'},
+  {'name': 'savepoint count test commuted', 'file': 'src/index/reorg.rs', 'old': '      if savepoints.len() >= index.settings.max_savepoints() {', 'new': '      if index.settings.max_savepoints() <= savepoints.len() {'},
+]
